@@ -88,7 +88,11 @@ def generate(tool, tree, gen_args):
     if key in _gen_cache:
         return _gen_cache[key]
     from pyFileFixity import header_ecc, structural_adaptive_ecc
-    d = tempfile.mkdtemp(prefix='g', dir=workdir())
+    # a third of the generations run under a folder whose name has non-ASCII letters: the comment preamble repeats argv (UTF-8:
+    # more bytes than characters), and the index records byte offsets
+    import zlib
+    pre = 'g_archive_donn\xe9es_\xe9t\xe9_\xfe\xff_' if zlib.crc32(repr(key).encode()) % 3 == 0 else 'g'
+    d = tempfile.mkdtemp(prefix=pre, dir=workdir())
     root = os.path.join(d, 'tree')
     os.mkdir(root)
     for rel, spec in tree:
